@@ -179,6 +179,27 @@ func runSegment(sc *Scenario) *Rec {
 			switch st.Mode {
 			case "short":
 				d = []byte{0, 0, 0, 9, 0}
+			case "idxOverInflight":
+				// a datagram for a message that is being reassembled whose own header is self-consistent (index <= its count) but whose
+				// index lies beyond the count announced by the segments received so far
+				var seq uint32
+				slots := -1
+				rb.Lock()
+				for k := range lens { // the in-flight message with the smallest message number
+					if b, ok := rb.ReadBuffer[segSeq(k+1)]; ok {
+						seq, slots = segSeq(k+1), len(b.Msgs)
+						break
+					}
+				}
+				rb.Unlock()
+				if slots < 0 {
+					rec.Log("Inconclusive", "why", "no message in flight for idxOverInflight")
+					continue
+				}
+				d = make([]byte, 12)
+				binary.BigEndian.PutUint32(d[:4], seq)
+				binary.BigEndian.PutUint16(d[4:6], uint16(slots+5))
+				binary.BigEndian.PutUint16(d[6:8], uint16(slots+2))
 			default: // idxOver: index beyond the announced count, fresh sequence number
 				d = make([]byte, 12)
 				binary.BigEndian.PutUint32(d[:4], 777)
